@@ -3,7 +3,7 @@
 Only the spec-language subset may be used here: expressions, if/return, comprehensions."""
 from praatio.utilities.constants import Interval, Point
 from praatio.utilities import errors
-from spec.prims import forall, exists, pairwise, adjacent, strip, is_sorted
+from spec.prims import forall, exists, pairwise, adjacent, strip, is_sorted, subset
 from spec.tiers import valid, disjoint_ordered, in_span_i, in_span_p
 
 
@@ -47,3 +47,14 @@ def PointTier_validate(self, reportingMode):
     ps = self.entries
     return (forall(ps, lambda p: self.minTimestamp <= p.time and p.time <= self.maxTimestamp)
             and adjacent(ps, lambda a, b: a.time <= b.time))
+
+
+# ---- timestamps: "the sorted set of all boundary times"
+
+
+def interval_boundaries(self):
+    return [t for e in self._entries for t in [e.start, e.end]]
+
+
+def point_times(self):
+    return [p.time for p in self._entries]
